@@ -31,6 +31,10 @@ type Rules struct {
 	NoSelect []string `json:"no_select"`
 	// PinSelect: files whose selects are always polled in source order (never permuted by the salt)
 	PinSelect []string `json:"pin_select"`
+	// StmtYield: files (or directories, trailing slash) in which every statement of every function body is preceded by a
+	// yield point simrt.StmtYield(site) - a preemption point between adjacent non-blocking statements (T6). A no-op
+	// unless the run opted in.
+	StmtYield []string `json:"stmt_yield"`
 }
 
 type Stats struct {
@@ -42,6 +46,7 @@ type Stats struct {
 	FilesOverlaid    int      `json:"files_overlaid"`
 	Injected         []string `json:"injected"`
 	GoStmts          int      `json:"go_statements"`
+	StmtYields       int      `json:"statement_yield_points"`
 	SyncMapRange     []string `json:"syncmap_range_sites"`
 }
 
@@ -312,6 +317,13 @@ func transform(p *packages.Package, f *ast.File, rel string, src []byte, rules *
 		edits = append(edits, edit{len(src), len(src), "\nvar _ = simrt__.SelectOrder\n"})
 	}
 	if len(edits) == 0 {
+		if nb := insertStmtYields(rel, src, rules); len(nb) != len(src) {
+			if _, err := parser.ParseFile(token.NewFileSet(), rel, nb, 0); err != nil {
+				os.WriteFile("/tmp/simgen_bad.go", nb, 0o644)
+				fatal("rewritten %s does not parse: %v (see /tmp/simgen_bad.go)", rel, err)
+			}
+			return nb, true, false
+		}
 		return src, false, false
 	}
 	sort.Slice(edits, func(i, j int) bool {
@@ -339,6 +351,8 @@ func transform(p *packages.Package, f *ast.File, rel string, src []byte, rules *
 			needHelpers = true
 		}
 	}
+	// ---- T6 statement-level yield points (last: works on the text the other rewrites produced)
+	b = insertStmtYields(rel, b, rules)
 	// sanity: must parse
 	if _, err := parser.ParseFile(token.NewFileSet(), rel, b, 0); err != nil {
 		os.WriteFile("/tmp/simgen_bad.go", b, 0o644)
@@ -574,3 +588,82 @@ func rewriteSelectOnce(rel string, b []byte, counter *int) ([]byte, bool) {
 }
 
 var _ = bytes.Compare
+
+// insertStmtYields (T6) puts `simrt__.StmtYield(<site>)` in front of every statement of every statement list inside
+// function bodies of the files rules.StmtYield names. The site is a hash of file and ordinal of the statement, a
+// compile-time constant. Inserting a call statement in front of a statement never changes the meaning of the list
+// (fallthrough stays last, labels keep their statement, no declaration is jumped over that was not jumped over before).
+func insertStmtYields(rel string, b []byte, rules *Rules) []byte {
+	on := false
+	for _, k := range rules.StmtYield {
+		if k == rel || (strings.HasSuffix(k, "/") && strings.HasPrefix(rel, k)) {
+			on = true
+		}
+	}
+	if !on || strings.HasSuffix(rel, "_test.go") {
+		return b
+	}
+	fset := token.NewFileSet()
+	f, err := parser.ParseFile(fset, rel, b, parser.ParseComments)
+	if err != nil {
+		fatal("T6: %s does not parse: %v", rel, err)
+	}
+	off := func(pos token.Pos) int { return fset.Position(pos).Offset }
+	var at []int
+	var lists func(n ast.Node)
+	addList := func(l []ast.Stmt) {
+		for _, s := range l {
+			switch s.(type) {
+			case *ast.CaseClause, *ast.CommClause:
+				continue // the clauses of a switch / select are the elements of its body block
+			}
+			at = append(at, off(s.Pos()))
+		}
+	}
+	lists = func(n ast.Node) {
+		ast.Inspect(n, func(x ast.Node) bool {
+			switch v := x.(type) {
+			case *ast.BlockStmt:
+				addList(v.List)
+			case *ast.CaseClause:
+				addList(v.Body)
+			case *ast.CommClause:
+				addList(v.Body)
+			}
+			return true
+		})
+	}
+	for _, d := range f.Decls {
+		if fd, ok := d.(*ast.FuncDecl); ok && fd.Body != nil {
+			if fd.Name.Name == "init" || strings.HasPrefix(fd.Name.Name, "__sim") {
+				continue
+			}
+			lists(fd.Body)
+		}
+	}
+	if len(at) == 0 {
+		return b
+	}
+	sort.Ints(at)
+	h := uint32(2166136261)
+	for _, c := range []byte(rel) {
+		h = (h ^ uint32(c)) * 16777619
+	}
+	var out []byte
+	prev := 0
+	for i, p := range at {
+		if i > 0 && p == at[i-1] {
+			continue
+		}
+		out = append(out, b[prev:p]...)
+		out = append(out, fmt.Sprintf("simrt__.StmtYield(%d); ", (h^uint32(i))*16777619)...)
+		prev = p
+		stats.StmtYields++
+	}
+	out = append(out, b[prev:]...)
+	if !strings.Contains(string(out), "import simrt__ \"verifsim/simrt\"") {
+		pos := off(f.Name.End())
+		out = append(append(append([]byte(nil), out[:pos]...), "\n\nimport simrt__ \"verifsim/simrt\"\n"...), out[pos:]...)
+	}
+	return out
+}
